@@ -210,6 +210,9 @@ func (p *httpProxy) handle(c net.Conn) {
 		conn.Write([]byte("HTTP/1.1 405 Method Not Allowed\r\nContent-Length: 0\r\n\r\n"))
 		return
 	}
+	if p.Status < 0 {
+		return // the proxy takes the CONNECT and hangs up without a word
+	}
 	if p.Status != 200 {
 		if p.NoText {
 			fmt.Fprintf(conn, "HTTP/1.1 %d\r\n\r\n", p.Status)
